@@ -208,7 +208,7 @@ func (l *litCtx) structLitAt(loc string, st *types.Struct, depth int) (string, b
 		if f.Name() == "_" {
 			continue
 		}
-		floc := fmt.Sprintf("(lfield %s %d)", loc, i)
+		floc := c.lfield(loc, st, i)
 		switch fu := f.Type().Underlying().(type) {
 		case *types.Struct:
 			body, ok := l.structLitAt(floc, fu, depth+1)
